@@ -268,7 +268,8 @@ class CCodeGenerator:
         mem = ()
         # Initialize the first field!
         field = ival.field
-        mem = mem + self.gen_global_ival(field.typ, ival.value)
+        if field is not None:  # union U u = {}; is all zeros
+            mem = mem + self.gen_global_ival(field.typ, ival.value)
         size = self.sizeof(typ)
         filling = size - self.mem_len(mem)
         assert filling >= 0
@@ -890,6 +891,11 @@ class CCodeGenerator:
         # Initialize the first field!
         field = expr.field
         ivalue = expr.value
+        if field is None:
+            # Empty initializer list: union U u = {};
+            inc = self.sizeof(typ)
+            ptr = self.builder.emit_add(ptr, inc, ir.ptr)
+            return ptr, inc
         ptr, inc = self.gen_local_init(ptr, field.typ, ivalue)
         # Update pointer with size of union:
         # inc = self.context.sizeof(typ)
